@@ -42,12 +42,11 @@ Get(bytes, path) == IF Root(bytes) = NoVal THEN Fail("syntax") ELSE Lookup(Root(
 \* ---- C14: what a *checked* walk may return on arbitrary bytes -------------------------
 \* It returned the span [a, z) for `path`.  Then the bytes before `a` must drive the lax machine,
 \* without rejection, into "a value is expected here" with one open container per path element:
-\* an object whose pending key is the wanted key and in which no earlier member has that key,
+\* an object whose pending key is the wanted key (which of several members of that name is taken is C10's business, not C14's),
 \* or an array with exactly `i` completed elements.
 PrefixState(bytes, a) == FoldLeft(BStep, BInit(TRUE), SubSeq(bytes, 1, a))
 LevelOk(frame, e) ==
   IF e.k = "key" THEN /\ frame.t = "obj" /\ frame.key # NoVal /\ frame.key.s = e.s
-                      /\ FirstIndex(frame.m, e.s) = 0
   ELSE /\ frame.t = "arr" /\ Len(frame.e) = e.i
 TraversedOk(bytes, path, a) ==
   LET st == PrefixState(bytes, a) IN
